@@ -51,7 +51,7 @@ GROUPSETS = [
     [("ungrouped", [1], "plain"), ("other", [2, 3], "plain")],
 ]
 H_NAMES = ("default", "nan", "inf", "none", "asym")
-SUBJ = ["s1", "a b", "x\ty", "-", "", "1e5", "nan", "ü", 'q"r']
+SUBJ = ["s1", "a b", "x\ty", "-", "", "1e5", "nan", "ü", 'q"r', "subject_name"]
 SEQ3 = [["s1", "s2"], ["a b", "x\ty"], ["-", "", "1e5"]]
 INPUT_CYCLE = ("tp", "empty_pred", "none", "miss", "partial")
 
